@@ -1,0 +1,29 @@
+//go:build verif
+
+package token
+
+// Contracts for the deductive verifier in /verif (govc). Comment-only file.
+
+//@ // the generic decoders return a token only through one of the typed, verifying decoders,
+//@ // and a delegation only under the delegation tag, an invocation only under the invocation tag
+//@ pure func genericVerified(node datamodel.Node, tkn Token) bool =
+//@     (tkn is *delegation.Token && envelopeVerified(node, delegation.Tag))
+//@  || (tkn is *invocation.Token && envelopeVerified(node, invocation.Tag))
+//@ pure func modelsWF() bool =
+//@     bindnodeModelsWF() && bindnodeInvModelsWF()
+//@  && (forall x any :: unwrapped(x) && x is *delegation.tokenPayloadModel ==> x.(*delegation.tokenPayloadModel) != nil)
+//@  && (forall x any :: unwrapped(x) && x is *invocation.tokenPayloadModel ==> x.(*invocation.tokenPayloadModel) != nil)
+//@
+//@ func fromIPLD
+//@   requires node != nil && modelsWF()
+//@   use node_sizes, node_map_children
+//@   ensures [C06,C10] typed: result1 == nil ==> genericVerified(node, result0)
+//@ func Decode
+//@   requires decFn != nil && modelsWF()
+//@   use node_sizes, node_map_children
+//@   ensures [C06,C10] typed: result1 == nil ==> genericVerified(decodeWith(decFn, bytes(b)), result0)
+//@ func FromSealed
+//@   requires modelsWF()
+//@   use node_sizes, node_map_children
+//@   ensures [C06,C10] typed: result2 == nil ==> genericVerified(decodeWith(dagcbor.Decode, bytes(data)), result0)
+//@   ensures [C08] cid: result2 == nil ==> result1 == ucanCid(bytes(data))
